@@ -159,6 +159,7 @@ def faults(cls, tier):
             out.append({"fault": "ctor_sort_by", "how": "tschuprowt"})
     out.append({"fault": "refit", "how": "same"})
     out.append({"fault": "refit", "how": "other_frame"})
+    out.append({"fault": "refit", "how": "with_nan"})
     out.append({"fault": "transform_X_type", "how": "ndarray"})
     for f in feats_of(cls):
         out.append({"fault": "transform_missing_column", "feature": f})
@@ -236,6 +237,15 @@ def apply_fault(cls, fd, X, y, variant):
         if fd["how"] == "other_frame":
             X = X.iloc[::-1].reset_index(drop=True) if variant != 2 else X.iloc[::-1]
             y = pd.Series(list(y)[::-1], index=X.index)
+        elif fd["how"] == "with_nan":  # the second sample has missing values (and a new rare category) where the first had none
+            X = X.copy()
+            for col in ("c", "o", "q"):
+                if col in X:
+                    vals = X[col].tolist()
+                    vals[1], vals[6] = np.nan, np.nan
+                    if col == "c":
+                        vals[10] = "brand_new"
+                    X[col] = pd.Series(vals, index=X.index, dtype=X[col].dtype)
     elif f == "transform_X_type":
         return ("transform", X.values)
     elif f == "transform_missing_column":
